@@ -23,6 +23,8 @@
 #ifndef BXDECAY0_I_RANDOM_H
 #define BXDECAY0_I_RANDOM_H
 
+#include <bxdecay0/verif_hooks.h> // no-op unless built with -DBXDECAY0_VERIF
+
 namespace bxdecay0 {
 
   /// \brief Interface for random number generator classes with
